@@ -27,6 +27,13 @@ CHECKS = {
         design_ref="3/C15",
         note="Trusts TLC and the finite universe (3 names, bodies of <= 2 tokens plus decorator prefixes, callable and return-command bodies). ExecAlias bodies and the $__ALIAS_STACK guard are covered separately when built.",
     ),
+    "C14": dict(
+        category="model_checking",
+        technique="TLA+ spec HistGC (declarative selection + property action-invariants) checked by TLC; generated file collections materialised as real history files / SQLite rows, real `history gc` runs and pure selection calls recorded and validated against HistGCTrace by TLC",
+        text="TLC checks never-live, oldest-first, fits, maximal, nothing-if-within, refusal and SQLite keep-newest-N over every collection of the bounded universe; thousands of generated collections (lock no/live/stale, empty and corrupt members, the running session's own file, boundary limits in all four units) are written as real files and collected by the real GC, and each run must be the spec's GC action.",
+        design_ref="3/C14",
+        note="Trusts TLC, the file writer of harness/drivers/histgc.py and the scaling 1 age unit = 1000 s; refusal rule = discarded units >= limit.",
+    ),
 }
 
 ALL = [f"C{i:02d}" for i in range(1, 21)]
